@@ -31,38 +31,33 @@ CONFIG = {
               "reduce_clause (C11_reduce_clause, _skipped, _kept, C11_prepare_no_panic); the specification "
               "(C11_edit_spec_add: adding is conjunction, tautologies and duplicates absorbed; C11_edit_spec_rmv; "
               "C11_edit_spec_features). "
-              "The model follows /repo AFTER the repairs F14-F17 (K23, K25, K26, K34; repo_patches/C11-K*.patch); `_v0` definitions = "
-              "the code before them, kept only for the witnesses. FULL for the repaired code paths: the dispatch conditions decidable "
-              "without the graph (C11_dispatch_nothing / _cache_hit / _empty_store; C11_dispatch_unit + C11_dispatch_unit_iff: the unit "
-              "path is taken exactly for one added unit clause over an existing variable with NOTHING to remove and no cache hit; "
-              "C11_dispatch_removal_not_unit: an edit with removals never takes the unit path; C11_dispatch_v0_same_without_removal); the "
-              "undo cache predicate and keys (C11_cache_matches_inverse, C11_cache_matches_iff_inverse: a request matches an entry iff "
-              "its added / removed clauses are, as sets of literal sets, the entry's removed / added clauses; C11_cache_find_inverse; "
-              "C11_cache_matches_v0_weaker; C11_unit_edit_clears_cache + C11_no_undo_after_unit: the edit after a unit edit is never "
-              "answered Undo); the retain step of adjust_intern_cnf (C11_retain_removes_exactly, C11_retain_is_filter, "
-              "C11_retain_is_edit_spec: it is the removal step of the specification for any number of removed clauses; "
-              "C11_adjust_removal_is_edit_spec: on a stored list of duplicate-free, non-tautological, non-unit clauses the whole of "
-              "adjust_intern_cnf is the specification's removal; C11_retain_v0_single). "
-              "REFUTED on the faithful model (vm_compute witnesses): C11_removal_after_simplify_refuted (K8), "
-              "C11_recompile_adjusts_twice_refuted (K38: an edit answered Recompile adjusts the stored list twice and loses a clause "
-              "shortened to a removed one). About the code BEFORE the repairs: C11_unit_core_refuted (K4, repaired by F22: dead branch after a "
-              "unit edit, vector neither no_dead nor smooth, calculate_core_v0 under-reports while calculate_core is exact), "
-              "C11_multi_removal_refuted_v0 (K23), "
-              "C11_cache_matches_partial_refuted_v0 (K25), C11_dispatch_unit_drops_removal_v0 (K26), "
-              "C11_undo_stale_after_unit_refuted_v0 (K34). "
-              "With dead nodes after the edit (K4 class, about 1 % of the unit edits of the run) C11_unit_sem / C11_unit_count / "
-              "C11_unit_then_core speak about the vector; check_wf is then evaluated per dumped vector modulo dead or-children "
-              "(strip_dead), the cached core is compared with the model's calculate_core on every dumped vector and every answer is "
-              "judged by the truth table. "
+              "The model follows /repo AFTER the repairs F14-F17 (K23, K25, K26, K34) and F23-F28 (K38, K27, K22+K33, K30-K32, K3+K20+K29, "
+              "K21+K35; repo_patches/F23..F28-*.patch); `_v0` / `_v1` definitions = the code before them, kept only for the witnesses. FULL for the "
+              "repaired code paths: the dispatch conditions decidable without the graph (C11_dispatch_nothing / _cache_hit; C11_dispatch_unit + "
+              "C11_dispatch_unit_iff: the unit path is taken exactly for one added unit clause - over an existing or a NEW variable - with NOTHING "
+              "to remove and no cache hit; C11_dispatch_removal_not_unit; C11_dispatch_error_iff: every other edit is refused with Error exactly "
+              "when the d-DNNF was not compiled from a CNF; C11_dispatch_empty_from_cnf: an empty clause list of a CNF-compiled d-DNNF is "
+              "recompiled with the edit; C11_dispatch_tautology_iff; C11_dispatch_v1_same / _v0_same_without_removal: where the repairs changed "
+              "nothing); the undo cache predicate and keys (C11_cache_matches_inverse, C11_cache_matches_iff_inverse, C11_cache_find_inverse, "
+              "C11_cache_matches_v0_weaker, C11_unit_edit_clears_cache + C11_no_undo_after_unit); the stored clause list (C11_retain_removes_exactly, "
+              "C11_retain_is_filter, C11_retain_is_edit_spec, C11_adjust_removal_is_edit_spec, C11_retain_v0_single, C11_recompile_stored_once: an "
+              "edit answered Recompile applies the edit once). MODEL + EXACT CORRESPONDENCE + EXAMPLES ONLY: unit_edit_new (the unit edit over a new "
+              "variable: and root, one or-triangle per skipped number, the literal; the dumped vector is compared with it on every such edit; no "
+              "general semantic theorem yet, ex_c11_unit_new evaluates two instances). "
+              "REFUTED on the faithful model (vm_compute witnesses): C11_removal_after_simplify_refuted (K8). About the code BEFORE the repairs: "
+              "C11_multi_removal_refuted_v0 (K23), C11_cache_matches_partial_refuted_v0 (K25), C11_dispatch_unit_drops_removal_v0 (K26), "
+              "C11_undo_stale_after_unit_refuted_v0 (K34), C11_recompile_adjusts_twice_refuted_v0 (K38), C11_dispatch_empty_store_v1 (K3, K20, K27). "
+              "C11_unit_core_refuted (K4) is about the syntactic core before F22. "
               "SPEC + CORRESPONDENCE ONLY (not modelled): closest_unsplitable_bridge, find_bridges, divide_bridge, "
-              "transform_to_cnf_from_starting_cnf, switch_sub_dag, recompile_everything, the undo cache contents - every answer after "
+              "transform_to_cnf_from_starting_cnf, switch_sub_dag, recompile_everything, the cached graphs - every answer after "
               "every edit is judged against the truth table of edit_spec on the source formula. "
-              "On /repo + F14-F17 + F22 the property FAILS in 16 recorded input classes (K3 K8 K20-K22 K24 K27-K33 K35 K37 K38), each with "
-              "its own signature; every one is re-established on every run by a minimal history (corpus in harness/src/k_c11.rs). "
-              "K4 K23 K25 K26 K34 are `fixed:`; their signatures stay as DETECTORS without a finding line (an occurrence is a VIOLATION; "
-              "edit:dead-branch-core fires against a tree without F22). "
-              "Against a tree WITHOUT the four repairs the check reports VIOLATION (edit:undo-stale, edit:undo-partial-match, "
-              "edit:unit-add-drops-removal, wrong counts after multi-clause removals) and dispatch DIFFs",
+              "On /repo + F23-F28 the property FAILS in 6 recorded input classes: K8 / K37 (removal on the unit-propagated clause list; repair = keep "
+              "the original clause list next to the simplified one: not small), K21 (the inverse of a unit edit on an nnf-loaded model is refused: "
+              "needs an undo entry per unit edit), K24 and K28 (sub-DAG replacement: decisions taken from the old graph / a free feature inside the "
+              "replaced sub-DAG: the bridge machinery itself), K30 (sub-DAG replacement on a graph changed by a unit edit; F26 repaired the stale "
+              "maps, the selection still assumes a compiler-shaped graph). K3 K20 K22 K23 K25 K26 K27 K29 K31-K35 K38 are `fixed:`; their signatures "
+              "stay as DETECTORS without a finding line. Against a tree WITHOUT F23-F28 the check reports VIOLATIONs under those signatures and "
+              "dispatch DIFFs",
     "assumptions": [
         "theorems are about the Gallina model Model/Edit.v; tied to /repo by: unit_edit = the dumped node vector after every UnitClause "
         "step (exact vector equality), reflatten = identity on every dumped vector (validates the DfsPostOrder model), reduce_clause on "
@@ -87,20 +82,23 @@ CONFIG = {
         "removal of present / absent clauses, two clauses per edit, mixed add+remove, exact inverse of the previous edit; only histories "
         "that stay satisfiable; (iii) reduce_clause directly",
         "the stand-in compiler (harness/src/cnfc.rs, gen.rs) replaces d4 for every compilation ddnnife performs (load and recompile); its contract (output denotes the CNF) is checked by the oracle at the load step of every history",
-        "signatures name the input class of the first failing step (chk_c11.ml, fixed order): mode nnf: new-variable-clause (K3), "
-        "nnf-recompile-forgets-model (K20), nnf-removal (K21; :panic K35), dead-branch-core (K4); mode cnf: detectors first (no finding "
-        "line, named by the observable misbehaviour: undo-stale-after-entry, undo-stale (was K34), undo-partial-match (was K25), "
-        "unit-add-drops-removal = UnitClause answered for an edit with removals (was K26)), then after-undo-stale-cnf (K22; :panic K33), "
-        "clause-removal (K8; :panic K37), recompile-removes-shortened-clause (K38: Recompile and a second application of the edit to the "
-        "source clause set changes the formula), add-on-empty-cnf (K27: empty clause set and an edit that does not take the unit path, "
-        "since F16 also a unit clause that comes with removals), removal-frees-core (K24), new-variable-subdag (K29), free-feature-subdag "
-        "(K28), subdag-after-unit-edit (K30), unit-after-subdag (K32), panic-after-unit-edit (K31), dead-branch-core (K4); a failing step "
-        "without a class of its own inherits the first class met earlier in its history (a wrong stored clause list shows later); anything else is reported under edit:wrong-count / wrong-core / "
-        "wrong-enumeration / wrong-sample / feature-count / inverse-not-restored / panic / load-wrong and is a VIOLATION",
+        "signatures name the input class of the first failing step (chk_c11.ml, fixed order): mode nnf: new-variable-clause (was K3), "
+        "nnf-recompile-forgets-model (was K20), nnf-removal (K21: refused with Error since F28; :panic was K35); mode cnf: detectors named by the "
+        "observable misbehaviour first (undo-stale-after-entry, undo-stale (was K34), undo-partial-match (was K25), unit-add-drops-removal "
+        "(was K26), add-on-empty-cnf = Tautology for an effective edit on an empty clause set (was K27), new-variable-subdag = a new-variable "
+        "unit clause answered by a sub-DAG replacement (was K29)), then the recorded classes clause-removal (K8; :panic K37), removal-frees-core "
+        "(K24), free-feature-subdag (K28), then the broad input classes of repaired defects (recompile-removes-shortened-clause (was K38), "
+        "after-undo-stale-cnf (was K22; :panic K33)), subdag-after-unit-edit (K30), unit-after-subdag (was K32), panic-after-unit-edit (was K31); "
+        "a failing step without a class of its own inherits the first class met earlier in its history; anything else is reported under "
+        "edit:wrong-count / wrong-core / wrong-enumeration / wrong-sample / feature-count / inverse-not-restored / panic / load-wrong and is a VIOLATION",
+        "the oracle follows EVERY state that fits all answers so far (the two readings of an inverse edit - edit_spec of the inverse / the "
+        "previous state restored - can give the same answers with different clause sets; F25 makes the implementation follow the second); a "
+        "history whose followed states all become unsatisfiable has left the input space and is not judged further; beyond 5000 models one "
+        "enumeration page of 5000 distinct models is accepted",
         "model-side bookkeeping of the checker (decides only which dispatch facts are known, never a verdict): stored clause list = "
-        "adjust_intern_cnf per step (recompile_stored = two rounds for Recompile), cache keys = cache_find over the pushed entries, "
-        "emptied by every unit edit (cache_after_unit), unknown after a sub-DAG replacement pushed onto a non-empty cache (retain_push "
-        "depends on the cached graphs)",
+        "adjust_intern_cnf per step (recompile_stored for Recompile), restored by an Undo from the entry (F25), cache keys = cache_find over the "
+        "pushed entries, emptied by every unit edit (cache_after_unit), unknown after a sub-DAG replacement pushed onto a non-empty cache "
+        "(retain_push depends on the cached graphs); facts: from_cnf and root == node 0 as reported by the harness",
     ],
     "rule": "one case = one history (load + edits with the battery after each) or the reduce_clause table; non-trivial when some dumped "
             "vector has an And and an Or node; distinct = different case body (sha1)",
